@@ -36,7 +36,7 @@ var names = []string{"", "pk", "if", "1x", "a-b", "_", "a/b", "Größe", "demo"}
 // moreNames are tried in a reduced product (valid / semantic input x three pre-states x {no flag, -debug}): every way a
 // name can fail to be an identifier that the first list does not have (numeric but not decimal-digit runes, a leading
 // non-ASCII digit, combining marks, blanks, dots), non-ASCII identifiers, and predeclared identifiers.
-var moreNames = []string{"x²", "vⅧ", "half½", "x٣", "٣x", "π", "ａｂ", "e\u0301", "a b", "a.b", "a\\b", "..", ".", "int", "any", "nil", "Demo2", "__", "_x", "x_"}
+var moreNames = []string{"x²", "vⅧ", "half½", "x٣", "٣x", "π", "ａｂ", "e\u0301", "a b", "a.b", "a\\b", "..", ".", "int", "any", "nil", "Demo2", "__", "_x", "x_", " ", "\t", "\u00a0", " pk", "pk ", "\n"}
 
 var preStates = []string{"out-missing", "out-is-file", "out-empty", "pkg-empty-dir", "pkg-dir-with-user-files", "pkg-dir-with-target-files", "pkg-is-file", "pkg-symlink-to-dir", "pkg-symlink-dangling", "no-out-flag"}
 
@@ -439,7 +439,7 @@ func main() {
 			os.RemoveAll(filepath.Dir(bin))
 		}
 		os.RemoveAll(tmp)
-		r.Set("rule", "configurations: name (9 names in the full product, 20 further identifier / non-identifier names in a reduced one; go/token decides what an identifier is) x input class x pre-state (and five further spellings of -out: relative, ./, with .., trailing slash, as a separate argument) of the output location x flag subsets (complete product in thorough; in quick every pair of dimensions is covered); faults: for every successful configuration an error (ENOSPC, EACCES, EIO) injected into the k-th mkdirat / openat / write / newfstatat for every k the fault-free run performs (strace inject); non-trivial = every configuration (distinct by configuration)")
+		r.Set("rule", "configurations: name (9 names in the full product, 26 further identifier / non-identifier names (blank-only and blank-padded ones among them) in a reduced one; go/token decides what an identifier is) x input class x pre-state (and five further spellings of -out: relative, ./, with .., trailing slash, as a separate argument) of the output location x flag subsets (complete product in thorough; in quick every pair of dimensions is covered); faults: for every successful configuration an error (ENOSPC, EACCES, EIO) injected into the k-th mkdirat / openat / write / newfstatat for every k the fault-free run performs (strace inject); non-trivial = every configuration (distinct by configuration)")
 		r.Set("evaluations", r.Get("runs"))
 		r.Finish()
 	}
